@@ -9,6 +9,7 @@ import (
 	"io"
 	"os"
 	"path/filepath"
+	"sync"
 
 	"verifsim/simkit"
 
@@ -128,6 +129,23 @@ type ReadResult struct {
 	Err   error
 	Count int
 	N     *needle.Needle
+	// HeldChanged is set when the bytes an EARLIER read returned (still held by its caller, as the HTTP
+	// handler holds them while it writes the response) have changed by the time this read returned
+	HeldChanged string
+}
+
+// the previous read's payload: the slice as returned, and a private copy taken at that moment
+var held struct {
+	mu         sync.Mutex
+	key        uint64
+	data, copy []byte
+}
+
+// ResetHeld forgets the held read (start of a run).
+func ResetHeld() {
+	held.mu.Lock()
+	held.key, held.data, held.copy = 0, nil, nil
+	held.mu.Unlock()
 }
 
 func ReadBlob(st *storage.Store, key uint64, cookie uint32) ReadResult {
@@ -135,7 +153,24 @@ func ReadBlob(st *storage.Store, key uint64, cookie uint32) ReadResult {
 	n.Id = types.Uint64ToNeedleId(key)
 	n.Cookie = types.Uint32ToCookie(cookie)
 	cnt, err := st.ReadVolumeNeedle(VID, n, nil)
-	return ReadResult{Err: err, Count: cnt, N: n}
+	rr := ReadResult{Err: err, Count: cnt, N: n}
+	held.mu.Lock()
+	if held.data != nil && !bytes.Equal(held.data, held.copy) {
+		rr.HeldChanged = fmt.Sprintf("the %d bytes returned by the previous read (key %d) read %x... when returned and %x... now", len(held.copy), held.key, firstN(held.copy, 12), firstN(held.data, 12))
+	}
+	held.key, held.data, held.copy = key, nil, nil
+	if err == nil && len(n.Data) > 0 {
+		held.data, held.copy = n.Data, append([]byte{}, n.Data...)
+	}
+	held.mu.Unlock()
+	return rr
+}
+
+func firstN(b []byte, n int) []byte {
+	if len(b) < n {
+		return b
+	}
+	return b[:n]
 }
 
 // NotFound says whether a read outcome means "no such blob" (absent or deleted).
